@@ -118,6 +118,15 @@ def oracle(name, ib, mb, meta):
         k = next(i for i, b in enumerate(ib) if b.fault)
         fails.append((k, 'the responder crashed / corrupted memory (sanitizer report or bad release) under the injected platform fault'))
         return fails
+    if name.startswith('mkfail') and 'inactive' in name:
+        # not wedged: 30 s without a frame end the mapping session at the next tick, whatever part of the automata could not be built
+        armed = False
+        for i, b in enumerate(ib):
+            if b.op.startswith('adv 31000'): armed = True
+            elif armed and b.op.startswith('tick') and 'map' in b.kv and 'null' not in b.kv['map']:
+                if 'inact' in b.kv and b.kv['map'].split('@')[0] != '0':
+                    fails.append((i, 'mapping engine still in state %s after 30 s without a frame and a tick (automata built while an allocation failed): the session never ends' % b.kv['map'].split('@')[0]))
+                break
     if name.endswith('~x'): return fails
     if name.startswith('ctor'):
         for i, b in enumerate(ib):
